@@ -2,6 +2,8 @@ import EaselModel.Alphabet.Model3
 import EaselModel.Alphabet.Sq2Lemmas
 import EaselModel.Alphabet.DealignLemmas
 import EaselModel.Alphabet.GuessLemmas
+import EaselModel.Generated.Alphabets
+import EaselModel.Generated.AlphabetsAux
 /-! # C08 — round 4 lemmas: text-mode `esl_sq_CountResidues`, `esl_abc_TextizeN` windows, `esl_abc_dsqrlen`, `esl_abc_dsqdup`,
 `esl_abc_{F,D}Count` on the non-degenerate codes, `esl_msa_GuessAlphabet` -/
 set_option linter.dupNamespace false
@@ -306,6 +308,16 @@ end Alphabet
 
 /-! ## `esl_msa_GuessAlphabet` -/
 namespace Guess
+
+/-- the 3 × 26 probe compositions of the table dumper: 100 each of A, C, G and T (base 0) / U (base 1) / nothing (base 2), plus 8
+    (12 for base 2) of letter `l` -/
+def probe (i : Nat) : List Int :=
+  let base := i / 26
+  let l := i % 26
+  let ct0 : List Int := if base < 2 then
+      (((List.replicate 26 (0 : Int)).set 0 100).set 2 100 |>.set 6 100).set (if base = 0 then 19 else 20) 100
+    else List.replicate 26 0
+  ct0.set l (ct0.getD l 0 + (if base = 2 then 12 else 8))
 
 theorem bump_length (ct : List Int) (x : Nat) : (bump ct x).length = ct.length := by simp [bump]
 
